@@ -243,10 +243,23 @@ def oracle(case, line):
     over = set()    # ih whose store ever exceeded max_peers (oracle then only checks membership)
     prevk = None
     kk = None
+    lastz = None
+    pending_check = None
+    prevhash = curhash = None
     for o, p in list(zip(ops, parts)) + [("END", parts[-1])]:
         f = o.split(",")
         prevk = kk
         k = kk = f[0]
+        prevhash = curhash
+        curhash = p[p.rindex("#"):] if "#" in p and k != "END" else None
+        if k == "Z" and pending_check is not None and p.startswith("Z:tx="):
+            key, should_be_gone = pending_check
+            present = ("%d/%d/" % key) in p
+            if should_be_gone and present:
+                bad.append(("transaction-not-cleared", "an answered transaction is still pending"))
+            pending_check = None
+        elif k != "Z":
+            pass
         if k == "END":
             res = p[4:]
         else:
@@ -322,6 +335,32 @@ def oracle(case, line):
             nm = re.search(r" n=(\S+)", res)
             if nm and last is not None:
                 pass
+        elif k == "Z":
+            lastz = None
+            if res.startswith("tx="):
+                mz = re.match(r"tx=(\S*) up=([01])$", res)
+                if not mz:
+                    bad.append(("crash", "unparsable transaction dump"))
+                else:
+                    lastz = {}
+                    for e in [x for x in mz.group(1).split(",") if x]:
+                        a = e.split("/")
+                        lastz[(int(a[0]), int(a[1]))] = int(a[2], 16)
+        elif k in ("Y", "E") and res != "x":
+            # transaction matching: needs the transaction dump taken right before (generator emits Z)
+            hbefore = prevhash
+            hafter = p[p.rindex("#"):]
+            if res != "none" and not re.match(r"e t=\S+ \d+ \S+$", res):
+                bad.append(("reply-shape", "unexpected answer to a reply/error datagram: " + res[:100]))
+            tb = fld(f[2])
+            if prevk == "Z" and lastz is not None and tb is not None and len(tb) == 1:
+                key = (int(f[1]), tb[0])
+                idv = fld(f[3]) if k == "Y" else None
+                idn = int.from_bytes(idv[:20], "big") if idv is not None and len(idv) >= 20 else None
+                solicited = key in lastz and (k == "E" or (idn is not None and (lastz[key] in (0, idn))))
+                if not solicited and hafter != hbefore and not (k == "Y" and idn is None):
+                    bad.append(("unsolicited-reply-effect", "a reply/error that matches no pending transaction (address, id) changed the router state"))
+                pending_check = (key, solicited and (k == "E" or idn != own))
         elif k == "X":
             if res != "none":
                 bad.append(("reply-to-garbage", "a datagram that is not a bencode dictionary was answered: " + res[:80]))
@@ -344,9 +383,13 @@ def run(rep, tier, seed, replay):
                        "datagram level: the dispatcher (event_read checks, process_query, create_*_response, create_error) is modelled over DECODED "
                        "messages; static_map_read_bencode / bencode writing are not modelled (the harness encodes the case's fields with sorted keys, "
                        "the real server parses them; C07/C14 cover the codecs)",
-                       "not modelled: DhtServer transactions/searches/packet queues and y=r / y=e datagrams (pings and find_node searches started by "
-                       "the router have no routing-table effect until a reply/timeout arrives; those arrive as explicit Q/R/I ops); the 15 s reply "
-                       "queue age limit and the 1024-packet reply queue cap (the harness flushes after every datagram)",
+                       "transaction layer: ping transactions, process_response / process_error / DhtServer::receive_timeout are modelled (y=r / y=e "
+                       "datagrams, op kinds Y/E/S/Z) until the server starts its first DhtSearch (housekeeping of a non-empty table, or a split that "
+                       "leaves a half empty); from then on both sides skip those ops. NOT modelled: DhtSearch / DhtAnnounce state machines "
+                       "(dht_search.cc, dht_announce.cc), find_node / get_peers / announce_peer transactions, the 15 s reply queue age limit and the "
+                       "1024-packet reply queue cap (the harness flushes after every datagram); effects of search traffic reach the router only as "
+                       "explicit Q/R/I ops",
+                       "random(): the harness returns the case's rnd while a datagram is processed and a per-case constant otherwise (transaction ids)",
                        "python oracle props/c15.py (table invariant, token window, announce-then-get) on implementation outputs",
                        "little-endian host for the in-memory layout of SocketAddressCompact.port"]))
     model = ltv.build_model("C15")
@@ -408,7 +451,9 @@ def run(rep, tier, seed, replay):
                         "(a split happened), or in which get_peers returned peer values, or in which the real server answered a datagram with a normal reply",
                    samples=samples, input_distribution=stats, mismatches=mism, violation_classes=per_class, exhaustive=(tier == "thorough"),
                    exhaustive_scope="thorough: all op sequences of length <= 4 over a 7-op alphabet on a full own bucket (2801 cases)")
-    rep.assumptions += ["virtual time below 2^32 - 1 seconds (no_internal_error / only_own_bucket_splits need it: find_replacement_candidate "
+    rep.assumptions += ["IPv6 is out of scope IN THE CODE: DhtServer::start opens an IPv4 socket only, event_read drops every datagram whose "
+                        "(un-mapped) source is not AF_INET, DhtRouter::contact returns for non-AF_INET, DhtTransaction::key throws internal_error for "
+                        "inet6, DhtNode::store_compact throws for non-inet; the model has IPv4 addresses only","virtual time below 2^32 - 1 seconds (no_internal_error / only_own_bucket_splits need it: find_replacement_candidate "
                         "returns no node when every last-seen time is 2^32 - 1)", "IPv4 only (the code drops everything else)",
                         "contact ops never carry the router's own id (DhtServer::event_read rejects such packets)",
                         "fewer than 2^32 consecutive failed queries to one node"]
